@@ -450,6 +450,62 @@ theorem prefix_concat {t : List Nat} {i : Nat} {l1 l2 : List Nat} (h1 : l1 <+: t
   rw [← hu]
   exact (List.prefix_append_right_inj l1).mpr h2
 
+theorem pureMem_ok (e : Env) (c : Cls) : ∀ (f : Nat → Bool), pureMem c = some f → ∀ r, c.mem e false r = f r := by
+  induction c with
+  | base neg rs ns =>
+    intro f h r
+    simp only [pureMem] at h
+    split at h
+    · rename_i hns
+      simp at h; subst h
+      have : ns = [] := by simpa using hns
+      subst this
+      simp [Cls.mem, inNames]
+    · simp at h
+  | diff a b iha ihb =>
+    intro f h r
+    simp only [pureMem] at h
+    split at h
+    · rename_i fa fb ha hb
+      simp at h; subst h
+      simp [Cls.mem, iha fa ha r, ihb fb hb r]
+    · simp at h
+
+theorem clsChars_ok (e : Env) (maxCount : Nat) (c : Cls) :
+    ∀ (cs : List Nat), clsChars maxCount c = some cs → ∀ r, c.mem e false r = true → r ∈ cs := by
+  induction c with
+  | base neg rs ns =>
+    intro cs h r ht
+    simp only [clsChars] at h
+    split at h
+    · rename_i hc
+      obtain ⟨hneg, hns, _⟩ := hc
+      simp at h; subst h
+      have : ns = [] := by simpa using hns
+      subst this; subst hneg
+      simp [Cls.mem, inNames, inRanges] at ht
+      obtain ⟨a, b, hab, h1, h2⟩ := ht
+      rw [List.mem_flatMap]
+      refine ⟨(a, b), hab, ?_⟩
+      rw [List.mem_range'_1]
+      simp; omega
+    · simp at h
+  | diff a b iha ihb =>
+    intro cs h r ht
+    simp only [Cls.mem, Bool.and_eq_true, Bool.not_eq_true'] at ht
+    simp only [clsChars] at h
+    split at h
+    · rename_i ca hca
+      have hra := iha ca hca r ht.1
+      split at h
+      · rename_i g hg
+        simp at h; subst h
+        rw [List.mem_filter]
+        refine ⟨hra, ?_⟩
+        rw [← pureMem_ok e b g hg r, ht.2]; rfl
+      · simp at h; subst h; exact hra
+    · simp at h
+
 theorem setChars_ok (e : Env) (maxCount : Nat) (pr : Pred) (cs : List Nat) (h : setChars maxCount pr = some cs)
     (r : Nat) (ht : pr.test e r = true) : r ∈ cs := by
   unfold setChars at h
@@ -458,16 +514,8 @@ theorem setChars_ok (e : Env) (maxCount : Nat) (pr : Pred) (cs : List Nat) (h : 
     simp at h; subst h
     simp [Pred.test] at ht
     simp [ht]
-  · rename_i rs
-    split at h
-    · simp at h; subst h
-      simp [Pred.test, Cls.mem, inNames, inRanges] at ht
-      obtain ⟨a, b, hab, h1, h2⟩ := ht
-      rw [List.mem_flatMap]
-      refine ⟨(a, b), hab, ?_⟩
-      rw [List.mem_range'_1]
-      simp; omega
-    · simp at h
+  · rename_i c
+    exact clsChars_ok e maxCount c cs h r (by simpa [Pred.test] using ht)
   · simp at h
 
 theorem normChars_mem (norm : Nat → Nat) (cs : List Nat) (r : Nat) (h : r ∈ cs) : norm r ∈ normChars norm cs := by
